@@ -6,6 +6,7 @@
 #include "cmd_cond.h"
 #include "cmd_sym.h"
 #include "cmd_sim.h"
+#include "cmd_simx.h"
 #include "cmd_mem.h"
 #include "cmd_fileio.h"
 #include "cmd_safe.h"
@@ -13,6 +14,8 @@
 #include "cmd_util.h"
 #include "cmd_listing.h"
 #include "cmd_macro.h"
+#include "cmd_link.h"
+#include "cmd_reader.h"
 
 static void register_all()
 {
@@ -22,6 +25,7 @@ static void register_all()
   register_cond();
   register_sym();
   register_sim();
+  register_simx();
   register_mem();
   register_fileio();
   register_safe();
@@ -29,4 +33,6 @@ static void register_all()
   register_util();
   register_listing();
   register_macro();
+  register_link();
+  register_reader();
 }
